@@ -5,3 +5,7 @@ import Generated.GoFeed
 import Generated.GoAnsi
 import Generated.GoStyle
 import Generated.GoObject
+import Generated.GoConfig
+import Generated.GoLink
+import Generated.GoCollection
+import Generated.GoSplicer
